@@ -28,6 +28,7 @@ import (
 	"encoding/binary"
 	"encoding/json"
 	"fmt"
+	"math"
 	"math/bits"
 	"os"
 	"reflect"
@@ -769,6 +770,7 @@ func (w *permWorker) report(prefix []byte, bad string) {
 }
 
 type permResult struct {
+	skip   bool
 	counts [3]map[uint32]uint32
 	trunc  int64
 	runs   int64
@@ -862,8 +864,8 @@ func sparsePart(thorough bool) {
 		w.call()
 		L := w.rg.tp.want
 		dev := 2
-		if j.n > 34 || (!thorough && j.m < 3) {
-			dev = 1
+		if j.n > 34 || (!thorough && j.m < 3) || w.rg.tp.maxRd > 1 {
+			dev = 1 // (several bytes per draw: the byte-wise tape is 8x longer, keep it affordable)
 		}
 		tp := make([]byte, L)
 		runOne := func() {
@@ -908,6 +910,7 @@ func runPermJobs(jobs []permJob, label string, nmax int) {
 	results := make([]permResult, len(jobs))
 	type sub struct{ job, first int }
 	var subs []sub
+	var multiByte []string
 	for ji, j := range jobs {
 		w := newPermWorker(j, j.A)
 		w.rg.load(nil)
@@ -917,6 +920,15 @@ func runPermJobs(jobs []permJob, label string, nmax int) {
 		results[ji].L0 = w.rg.tp.want
 		for i := range results[ji].counts {
 			results[ji].counts[i] = map[uint32]uint32{}
+		}
+		if w.rg.tp.maxRd > 1 {
+			// this implementation pulls several bytes per draw: the tape tree over ONE byte class
+			// per draw is not its random-source space and would be astronomically larger than
+			// the space of draws. The job is not decided here (reported, exhaustive:false); the
+			// uniformity of the draws themselves is decided by the U parts in any case.
+			multiByte = append(multiByte, j.String())
+			results[ji].skip = true
+			continue
 		}
 		if results[ji].L0 == 0 {
 			subs = append(subs, sub{ji, -1})
@@ -963,8 +975,15 @@ func runPermJobs(jobs []permJob, label string, nmax int) {
 	// judge
 	summary := map[string]any{}
 	var totalRuns, totalLeaves int64
+	if len(multiByte) > 0 {
+		run.Set(label+"_jobs_not_decided_because_a_draw_reads_several_bytes", multiByte)
+		run.MarkCapped()
+	}
 	for ji, j := range jobs {
 		r := results[ji]
+		if r.skip {
+			continue
+		}
 		totalRuns += r.runs
 		exp := j.outcomes()
 		perLen := []string{}
@@ -1401,99 +1420,115 @@ func main() {
 		"P: Permutation/SubPermutation/Shuffle/Samples for all n<=nmax, m<=n: DFS over all tapes over one representative byte per measured indistinguishability class, all tapes consuming <= minimal+2 bytes, every run on the real code; outputs valid, per consumed length all n!/(n-m)! outcomes produced by the same number of tapes; "+
 		"P2 (sparse shapes): SubPermutation/Samples(n,m) for n=9..34 with m<=3 and n in {48,63,64,65,100,128,129,200,255,256} with m<=2: calls consuming <= 4 tape bytes are decided like P over all tapes; calls consuming more (SubPermutation = full Permutation(n)) over all tapes with <= 2 non-zero draws, validity only; "+
 		"H (history independence): Permutation/SubPermutation/Shuffle/Samples for n in {1,2,3,5,8,9,16,17,100,255,256,257,258,300} (thorough also 511..513, 1000, 65535..65537) x m in {1,2,n/2,n} x 5 tapes, run on a fresh generator and right after each of 6 prior calls that leave non-zero bytes in the internal buffers: same result, same number of reads; "+
+		"R (structure-independent range part): UintN(n) < n for every n <= 1024 and the special set on 6 tapes; AUX: auxiliary frequency pass with the real core and fixed seeds (parity, upper half, single values; threshold 12 standard deviations); the attempt-level parts U1-U3, U5, P, P2 are applied only if UintN consumes the source as one Read of bytes(n-1) bytes per attempt (measured first); "+
 		"E: all (n,m) in {-2^63,-2^31,-1000,-4..9}^2 must error iff n<0 or m<0 or m>n; S: equal seeds/customizers give equal outputs on a fixed call script with the real ChaCha20 core. "+
 		"distinct_nontrivial counts distinct n (U1,U3,U4 first argument), distinct (function,n,m,outcome) reached in P, distinct argument tuples in E, seed configurations in S; evaluations = library calls judged.")
 	run.Set("uintn_exhaustive_bound_requested", N)
 	run.Set("perm_nmax", nmax)
 
-	// U1+U2
-	var ns []uint64
-	for n := uint64(1); n <= N; n++ {
-		ns = append(ns, n)
+	// The U and P parts take the random source apart along the structure "one attempt = one Read of
+	// bytes(n-1) bytes; a rejected attempt is followed by a fresh Read". That structure is measured
+	// first. An implementation that consumes the source differently (say, a 64-bit word per draw) is
+	// not wrong for that reason, and the attempt-level oracles would misjudge it: they are then not
+	// applied (reported, exhaustive:false) and only the structure-independent parts run (range,
+	// history independence, argument validation, determinism, auxiliary frequency pass).
+	structOK, structWhy := attemptStructure()
+	run.Set("uintn_attempt_structure_as_assumed", structOK)
+	if !structOK {
+		run.Set("uintn_attempt_structure_note", "UintN does not consume the source as one Read of bytes(n-1) bytes per attempt ("+structWhy+"): the attempt-level enumeration (U1, U2, U3, U5, P, P2) is not applicable to this implementation and was not run")
+		run.MarkCapped()
+		fmt.Println("C15: attempt structure differs from the assumed one (" + structWhy + "): U1-U3, U5, P, P2 not applied")
 	}
-	var bigs []uint64
-	for _, s := range special {
-		if s > N && s-1 < 1<<16 {
-			ns = append(ns, s)
+	if structOK {
+		// U1+U2
+		var ns []uint64
+		for n := uint64(1); n <= N; n++ {
+			ns = append(ns, n)
 		}
-		if s-1 >= 1<<16 {
-			bigs = append(bigs, s)
-		}
-	}
-	// big n first inside Par is irrelevant; interleave so that workers get mixed sizes
-	const chunk = 16
-	nchunks := (len(ns) + chunk - 1) / chunk
-	done := make([]bool, nchunks)
-	ev.Par(nchunks, func(ci int) {
-		ci = nchunks - 1 - ci // expensive (2-byte) n first
-		if run.Expired() {
-			return
-		}
-		sc := newScratch()
-		for i := ci * chunk; i < (ci+1)*chunk && i < len(ns); i++ {
-			sweepN(ns[i], sc)
-		}
-		done[ci] = true
-	})
-	completed := uint64(0)
-	allDone := true
-	for ci := 0; ci < nchunks; ci++ {
-		if !done[ci] {
-			allDone = false
-			break
-		}
-		last := (ci+1)*chunk - 1
-		if last >= len(ns) {
-			last = len(ns) - 1
-		}
-		if ns[last] <= N {
-			completed = ns[last]
-		}
-	}
-	run.Set("uintn_every_n_exhaustive_upto", completed)
-	run.Set("uintn_all_first_attempt_strings_enumerated", allDone)
-	run.Set("uintn_special_n_small", len(ns)-int(N))
-	run.Sample(map[string]any{"part": "U1", "call": "UintN(40000)", "tapes": "all 65536 two-byte strings", "expected": "each of 0..39999 produced by exactly 1 accepted string; 25536 strings rejected"})
-	run.Sample(map[string]any{"part": "U2", "call": "UintN(5)", "tape_hex": "0706 03", "meaning": "two rejected attempts (7, 6) then 3: must return 3 after 3 reads"})
-
-	// U3
-	ev.Par(len(bigs), func(i int) { bigN(bigs[i]) })
-	run.Set("uintn_special_n_big", len(bigs))
-	run.Sample(map[string]any{"part": "U3", "call": fmt.Sprintf("UintN(%d)", uint64(1)<<32+1), "tape_hex": "ffffffff01", "meaning": "top byte 01 with all-ones lower bytes: masked value 2^33-1 > n-1, rejected"})
-
-	// U5: deep rejection chains. The deviation "a rejected attempt" is iterated far beyond 2 along one
-	// line: R all-ones attempts (rejected for every n that is not a power of two) followed by the
-	// attempt "1" must return 1 after exactly R+1 reads, for every R up to the bound — a sampler that
-	// gives up after some number of rejections (fallback to a modulo, a cap on the loop) fails here.
-	{
-		rmax := 160
-		if run.Thorough() {
-			rmax = 600
-		}
-		chains := []uint64{3, 5, 6, 7, 9, 100, 129, 255, 257, 1000, 40000, 65537, 1<<24 + 1, 1<<32 + 1, 1<<40 + 3, 1<<63 + 1, ^uint64(0)}
-		ev.Par(len(chains), func(i int) {
-			n := chains[i]
-			size := byteLen(n - 1)
-			rg := newRig()
-			for R := 1; R <= rmax; R++ {
-				t := make([]byte, 0, (R+1)*size)
-				for k := 0; k < R*size; k++ {
-					t = append(t, 0xff)
-				}
-				t = append(t, le(1, size)...)
-				got := rg.uintn(n, t)
-				evals.Add(1)
-				if got.reads != R+1 || got.res != 1 {
-					viol("uintn:deep-rejection-chain", fmt.Sprintf("UintN(%d) on a tape of %d rejected (all-ones) attempts followed by the attempt 1: got %d after %d reads, expected 1 after %d reads", n, R, got.res, got.reads, R+1),
-						replay{Kind: "uintn", N: n, Tape: ev.Hex(t)})
-					break
-				}
-				run.Distinct(fmt.Sprintf("U5/%d/%d", n, R))
+		var bigs []uint64
+		for _, s := range special {
+			if s > N && s-1 < 1<<16 {
+				ns = append(ns, s)
 			}
+			if s-1 >= 1<<16 {
+				bigs = append(bigs, s)
+			}
+		}
+		// big n first inside Par is irrelevant; interleave so that workers get mixed sizes
+		const chunk = 16
+		nchunks := (len(ns) + chunk - 1) / chunk
+		done := make([]bool, nchunks)
+		ev.Par(nchunks, func(ci int) {
+			ci = nchunks - 1 - ci // expensive (2-byte) n first
+			if run.Expired() {
+				return
+			}
+			sc := newScratch()
+			for i := ci * chunk; i < (ci+1)*chunk && i < len(ns); i++ {
+				sweepN(ns[i], sc)
+			}
+			done[ci] = true
 		})
-		run.Set("deep_rejection_chain_bound", rmax)
-		run.Set("deep_rejection_chain_n", len(chains))
-	}
+		completed := uint64(0)
+		allDone := true
+		for ci := 0; ci < nchunks; ci++ {
+			if !done[ci] {
+				allDone = false
+				break
+			}
+			last := (ci+1)*chunk - 1
+			if last >= len(ns) {
+				last = len(ns) - 1
+			}
+			if ns[last] <= N {
+				completed = ns[last]
+			}
+		}
+		run.Set("uintn_every_n_exhaustive_upto", completed)
+		run.Set("uintn_all_first_attempt_strings_enumerated", allDone)
+		run.Set("uintn_special_n_small", len(ns)-int(N))
+		run.Sample(map[string]any{"part": "U1", "call": "UintN(40000)", "tapes": "all 65536 two-byte strings", "expected": "each of 0..39999 produced by exactly 1 accepted string; 25536 strings rejected"})
+		run.Sample(map[string]any{"part": "U2", "call": "UintN(5)", "tape_hex": "0706 03", "meaning": "two rejected attempts (7, 6) then 3: must return 3 after 3 reads"})
+
+		// U3
+		ev.Par(len(bigs), func(i int) { bigN(bigs[i]) })
+		run.Set("uintn_special_n_big", len(bigs))
+		run.Sample(map[string]any{"part": "U3", "call": fmt.Sprintf("UintN(%d)", uint64(1)<<32+1), "tape_hex": "ffffffff01", "meaning": "top byte 01 with all-ones lower bytes: masked value 2^33-1 > n-1, rejected"})
+
+		// U5: deep rejection chains. The deviation "a rejected attempt" is iterated far beyond 2 along one
+		// line: R all-ones attempts (rejected for every n that is not a power of two) followed by the
+		// attempt "1" must return 1 after exactly R+1 reads, for every R up to the bound — a sampler that
+		// gives up after some number of rejections (fallback to a modulo, a cap on the loop) fails here.
+		{
+			rmax := 160
+			if run.Thorough() {
+				rmax = 600
+			}
+			chains := []uint64{3, 5, 6, 7, 9, 100, 129, 255, 257, 1000, 40000, 65537, 1<<24 + 1, 1<<32 + 1, 1<<40 + 3, 1<<63 + 1, ^uint64(0)}
+			ev.Par(len(chains), func(i int) {
+				n := chains[i]
+				size := byteLen(n - 1)
+				rg := newRig()
+				for R := 1; R <= rmax; R++ {
+					t := make([]byte, 0, (R+1)*size)
+					for k := 0; k < R*size; k++ {
+						t = append(t, 0xff)
+					}
+					t = append(t, le(1, size)...)
+					got := rg.uintn(n, t)
+					evals.Add(1)
+					if got.reads != R+1 || got.res != 1 {
+						viol("uintn:deep-rejection-chain", fmt.Sprintf("UintN(%d) on a tape of %d rejected (all-ones) attempts followed by the attempt 1: got %d after %d reads, expected 1 after %d reads", n, R, got.res, got.reads, R+1),
+							replay{Kind: "uintn", N: n, Tape: ev.Hex(t)})
+						break
+					}
+					run.Distinct(fmt.Sprintf("U5/%d/%d", n, R))
+				}
+			})
+			run.Set("deep_rejection_chain_bound", rmax)
+			run.Set("deep_rejection_chain_n", len(chains))
+		}
+	} // structOK
 
 	// U4
 	bset := []uint64{1, 2, 3, 4, 5, 7, 8, 9, 255, 256, 257, 258, 65535, 65536, 65537, 1 << 24, 1<<24 + 1, 1<<32 - 1, 1 << 32, 1<<32 + 1, 1 << 56, 1<<56 + 1, 1 << 63, 1<<63 + 1, ^uint64(0)}
@@ -1502,25 +1537,29 @@ func main() {
 	run.Sample(map[string]any{"part": "U4", "first": "UintN(2^64-1) on tape feffffffffffffff", "then": "UintN(3) on tape 02", "expected": "2, as on a fresh generator"})
 
 	// P
-	k := alphabetBits(8)
-	run.Set("perm_alphabet_bits_measured", k)
-	if k > 3 {
-		// still exactly decidable, but the tree is 2^(k-3) times wider per byte
-		if k > 5 {
-			run.Fatal("UintN(n<=8) distinguishes bytes by more than 5 bits (%d): tape tree too wide, decision procedure needs rework", k)
+	if structOK {
+		k := alphabetBits(8)
+		run.Set("perm_alphabet_bits_measured", k)
+		if k > 3 {
+			// still exactly decidable, but the tree is 2^(k-3) times wider per byte
+			if k > 5 {
+				run.Fatal("UintN(n<=8) distinguishes bytes by more than 5 bits (%d): tape tree too wide, decision procedure needs rework", k)
+			}
+			if nmax > 6 {
+				nmax = 6
+			}
+			if k > 4 && nmax > 5 {
+				nmax = 5
+			}
+			run.Set("perm_nmax", nmax)
+			run.Set("perm_nmax_reduced_because_alphabet_is_wider_than_3_bits", true)
 		}
-		if nmax > 6 {
-			nmax = 6
-		}
-		if k > 4 && nmax > 5 {
-			nmax = 5
-		}
-		run.Set("perm_nmax", nmax)
-		run.Set("perm_nmax_reduced_because_alphabet_is_wider_than_3_bits", true)
-	}
-	permPart(nmax, k)
-	sparsePart(run.Thorough())
+		permPart(nmax, k)
+		sparsePart(run.Thorough())
+	} // structOK
+	rangePart()
 	historyPart(run.Thorough())
+	auxFrequencies()
 
 	argsPart()
 	seedsPart()
@@ -1592,4 +1631,139 @@ func replayMode() {
 	}
 	run.Add("evaluations", evals.Load())
 	run.Finish()
+}
+
+// attemptStructure measures whether UintN consumes the source the way the U/P parts assume.
+func attemptStructure() (bool, string) {
+	rg := newRig()
+	for _, n := range []uint64{2, 3, 5, 200, 256, 257, 1000, 65536, 65537, 1<<33 + 1, 1<<56 + 1} {
+		size := byteLen(n - 1)
+		rg.tp.maxRd = 0
+		o := rg.uintn(n, nil)
+		if o.reads != 1 || rg.tp.want != size || rg.tp.maxRd != size {
+			return false, fmt.Sprintf("UintN(%d) on the all-zero source: %d reads, %d bytes requested, largest read %d; assumed 1 read of %d bytes", n, o.reads, rg.tp.want, rg.tp.maxRd, size)
+		}
+		if n&(n-1) != 0 { // not a power of two: the all-ones attempt is out of range
+			t := bytes.Repeat([]byte{0xff}, size)
+			o = rg.uintn(n, t)
+			if o.reads != 2 || rg.tp.want != 2*size || o.res != 0 {
+				return false, fmt.Sprintf("UintN(%d) on one all-ones attempt then zeros: result %d after %d reads / %d bytes; assumed 0 after 2 reads / %d bytes", n, o.res, o.reads, rg.tp.want, 2*size)
+			}
+		}
+	}
+	return true, ""
+}
+
+// rangePart: structure-independent. UintN(n) < n on a set of tapes (zeros, ones, 0x55, 0xaa, counter,
+// 0xff-then-zeros) for every n of the special set and every n <= 1024; never a hang on a source
+// that keeps producing the value 0.
+func rangePart() {
+	ns := specialNs()
+	for n := uint64(1); n <= 1024; n++ {
+		ns = append(ns, n)
+	}
+	tapes := [][]byte{nil, bytes.Repeat([]byte{1}, 64), bytes.Repeat([]byte{0x55}, 64), bytes.Repeat([]byte{0xaa}, 64), bytes.Repeat([]byte{0xff}, 8)}
+	ctr := make([]byte, 64)
+	for i := range ctr {
+		ctr[i] = byte(i*37 + 11)
+	}
+	tapes = append(tapes, ctr)
+	var cnt atomic.Int64
+	ev.Par(len(ns), func(i int) {
+		n := ns[i]
+		rg := newRig()
+		rg.tp.extraZero = 64
+		for ti, t := range tapes {
+			o := rg.uintn(n, t)
+			cnt.Add(1)
+			if o.reads < 0 {
+				reportHang(n, t, nil)
+				continue
+			}
+			if o.res >= n {
+				viol("uintn:out-of-range", fmt.Sprintf("UintN(%d) = %d on tape #%d", n, o.res, ti), replay{Kind: "uintn", N: n, Tape: ev.Hex(t), Got: fmt.Sprint(o.res)})
+			}
+		}
+	})
+	evals.Add(cnt.Load())
+	run.Set("range_cases", cnt.Load())
+}
+
+// auxFrequencies is an AUXILIARY pass, not the deciding step: with the real ChaCha20 core and fixed
+// seeds it draws 2^18 values per n and compares the frequency of the parity, of the upper half and
+// (n <= 512) of every value with the uniform expectation. It exists for implementations whose use of
+// the source the enumeration above cannot take apart; the threshold is 12 standard deviations on
+// fixed seeds (a deterministic computation: the same tree gives the same numbers on every run, and a
+// uniform sampler is about 10^-33 away from it), so it cannot make a correct sampler fail.
+func auxFrequencies() {
+	ns := []uint64{3, 5, 6, 7, 10, 100, 129, 255, 257, 258, 300, 511, 1000, 1025, 40000, 65537, 65539, 1<<24 + 1, 1<<32 + 1, 1<<32 + 3, 1<<40 + 3, 3 << 62}
+	const draws = 1 << 18
+	type res struct {
+		n    uint64
+		what string
+		z    float64
+	}
+	out := make([][]res, len(ns))
+	ev.Par(len(ns), func(i int) {
+		n := ns[i]
+		seed := make([]byte, random.Chacha20SeedLen)
+		for k := range seed {
+			seed[k] = byte(k*13+7) ^ byte(n) ^ byte(n>>8)
+		}
+		p, err := random.NewChacha20PRG(seed, []byte("c15aux"))
+		if err != nil {
+			run.Fatal("%v", err)
+		}
+		var odd, upper int
+		var hist []int
+		if n <= 512 {
+			hist = make([]int, n)
+		}
+		for d := 0; d < draws; d++ {
+			v := p.UintN(n)
+			if v >= n {
+				viol("uintn:out-of-range", fmt.Sprintf("UintN(%d) = %d with the real core", n, v), replay{Kind: "uintn", N: n, Got: fmt.Sprint(v)})
+				return
+			}
+			if v&1 == 1 {
+				odd++
+			}
+			if v >= n-n/2 { // the upper floor(n/2) values
+				upper++
+			}
+			if hist != nil {
+				hist[v]++
+			}
+		}
+		z := func(count int, prob float64) float64 {
+			mean := prob * draws
+			return (float64(count) - mean) / math.Sqrt(draws*prob*(1-prob))
+		}
+		pOdd := float64(n/2) / float64(n)
+		out[i] = append(out[i], res{n, "parity", z(odd, pOdd)}, res{n, "upper-half", z(upper, float64(n/2)/float64(n))})
+		if hist != nil {
+			worst := 0.0
+			for _, c := range hist {
+				if zz := math.Abs(z(c, 1/float64(n))); zz > worst {
+					worst = zz
+				}
+			}
+			out[i] = append(out[i], res{n, "single-value", worst})
+		}
+	})
+	worst := 0.0
+	for _, rs := range out {
+		for _, r := range rs {
+			a := math.Abs(r.z)
+			if a > worst {
+				worst = a
+			}
+			if a > 12 {
+				viol("aux-frequency:"+r.what, fmt.Sprintf("auxiliary pass (real ChaCha20 core, fixed seed, %d draws): UintN(%d) deviates from uniform by %.1f standard deviations in the %s statistic", draws, r.n, r.z, r.what),
+					replay{Kind: "aux-frequency", N: r.n, Note: fmt.Sprintf("statistic %s, z = %.2f, %d draws", r.what, r.z, draws)})
+			}
+		}
+	}
+	evals.Add(int64(len(ns)) * draws)
+	run.Set("aux_frequency_pass", map[string]any{"n": ns, "draws_per_n": draws, "largest_deviation_in_standard_deviations": math.Round(worst*100) / 100, "threshold": 12, "role": "auxiliary (sampled with fixed seeds); not the deciding step"})
 }
